@@ -31,6 +31,7 @@ pub const SIG_POINTER_ARGS: &str = "missing-data:client-pointer-reader-read-with
 pub const SIG_EMPTY_LINKED: &str = "missing-data:linked-field-without-server-selections";
 pub const SIG_OMITTED_IN_OBJECT: &str = "missing-data:null-or-omitted-variable-inside-object-argument";
 pub const SIG_ENTITY_WITHOUT_ID: &str = "missing-data:entity-also-normalized-without-its-id";
+pub const SIG_KEY_COLLISION: &str = "missing-data:response-key-collision-in-operation";
 pub const SIG_DEFAULT_VALUE: &str = "missing-data:client-field-variable-default-value-not-applied-when-reading";
 
 /// Evidence samples chosen deterministically although cases run on parallel workers: per kind the
@@ -237,6 +238,12 @@ fn declares_variable_default(files: &Rendered) -> bool {
 fn refine_signature(mut f: Fail, files: &Rendered, response: &Value, ep: &EntrypointCase, schema: &refgql::Schema) -> Fail {
     if f.signature.starts_with("runtime-exception:normalize:Error: Unexpected missing __typename") && has_list_of_lists_of_objects(response) {
         f.signature = SIG_NESTED_LIST.into();
+        return f;
+    }
+    // two different (field, arguments) under one response key (root cause: C12's collision findings):
+    // no conforming response exists, whatever the generator picks for the shared key misleads one reader
+    if f.signature.starts_with("missing-data:") && ep.operation_text.as_deref().is_some_and(respgen::operation_has_response_key_collision) {
+        f.signature = SIG_KEY_COLLISION.into();
         return f;
     }
     if f.signature == "missing-data:record-not-in-store" && has_linked_node_without_selections(&ep.normalization) {
